@@ -110,6 +110,29 @@ func (r *UnifiedMemoryModelRegistry) RegisterModelsWithEndpoint(ctx context.Cont
 	return r.RegisterModels(ctx, endpoint.GetURLString(), models)
 }
 
+// RegisterModel overrides the base method so that a model added on its own also reaches
+// the unified catalogue (the endpoint's full, updated list is unified again)
+func (r *UnifiedMemoryModelRegistry) RegisterModel(ctx context.Context, endpointURL string, model *domain.ModelInfo) error {
+	if err := r.MemoryModelRegistry.RegisterModel(ctx, endpointURL, model); err != nil {
+		return err
+	}
+
+	models, err := r.MemoryModelRegistry.GetModelsForEndpoint(ctx, endpointURL)
+	if err != nil {
+		return err
+	}
+
+	if model != nil {
+		r.modelEndpointSets.Delete(model.Name)
+	}
+
+	seq := r.listingSeq.Add(1)
+	r.latestListing.Store(endpointURL, seq)
+	go r.unifyModelsAsync(ctx, endpointURL, models, seq)
+
+	return nil
+}
+
 // RegisterModels overrides the base method to add unification
 func (r *UnifiedMemoryModelRegistry) RegisterModels(ctx context.Context, endpointURL string, models []*domain.ModelInfo) error {
 	// First, register models normally
